@@ -1043,3 +1043,126 @@ Proof.
           by (rewrite <- Hifl; unfold pl; destruct (pe_retry p =? 0); reflexivity).
         reflexivity.
 Qed.
+
+(* ================================================================== G. runs *)
+
+Lemma sim_run pa op : op <> OpStop -> forall n p s, jinv pa p s ->
+  exists p' s' evs, joint_run pa op n (p, s) = Ok ((p', s'), evs) /\ jinv pa p' s' /\ fix_of s' = fix_of s /\
+    proj pa (p', s') = aiter (fix_of s) (Z.to_nat (p_max_retry pa)) n (proj pa (p, s)).
+Proof.
+  intros Hop. induction n as [|n IH]; intros p s J.
+  - exists p, s, []. split; [reflexivity|]. split; [exact J|]. split; reflexivity.
+  - destruct (sim_step pa op p s J Hop) as (p1 & s1 & e1 & H1 & J1 & F1 & P1).
+    destruct (IH p1 s1 J1) as (p2 & s2 & e2 & H2 & J2 & F2 & P2).
+    exists p2, s2, (e1 ++ e2). cbn [joint_run]. rewrite H1. cbn [bind]. rewrite H2. cbn [bind].
+    split; [reflexivity|]. split; [exact J2|]. split; [congruence|].
+    rewrite P2, F1, P1. reflexivity.
+Qed.
+
+Lemma jinv_fx pa p s : jinv pa p s -> fx_ok (fix_of s).
+Proof.
+  intros J. destruct (ji_delay _ _ _ J) as [Hd _]. split; [exact Hd|].
+  unfold fix_of. cbn [f_in0 f_dgl]. intro H. apply Nat.eqb_eq in H. apply Nat.eqb_neq. lia.
+Qed.
+
+Lemma jinv_range pa p s : jinv pa p s -> in_range (fst (proj pa (p, s))).
+Proof.
+  intros J. split; cbn; [exact (ji_fcb _ _ _ J)|]. destruct (ji_delay _ _ _ J) as [_ H]. exact H.
+Qed.
+
+Lemma good_in_dx pa p s : Goodx (proj pa (p, s)) -> in_dx (p, s).
+Proof.
+  intros [H _]. cbn [proj fst] in H. unfold goodb in H. cbn [u_ps u_sl] in H.
+  repeat (apply andb_prop in H; let E := fresh "E" in destruct H as [H E]).
+  split; [apply ps_eqb_eq; exact H|apply sl_eqb_eq; assumption].
+Qed.
+
+Lemma core_f15 pa p s : jinv pa p s ->
+  (Corex (Z.to_nat (p_max_retry pa)) (proj pa (p, s)) <-> f15_core pa (p, s)).
+Proof.
+  intros J. pose proof (ji_retry _ _ _ J). pose proof (ji_M _ _ _ J).
+  unfold Corex, f15_core, coreb. cbn [proj fst snd u_ps u_sl u_prmf u_cfgf u_fcb u_sfcb]. split.
+  - intros [Hc Hr]. repeat (apply andb_prop in Hc; let E := fresh "E" in destruct Hc as [Hc E]).
+    apply ps_eqb_eq in Hc. apply sl_eqb_eq in E2. apply negb_true_iff in E1. apply negb_true_iff in E0.
+    repeat split; try assumption. lia.
+  - intros (H1 & H2 & H3 & H4 & H5 & H6). rewrite H1, H2, H3, H4, H5. split; [reflexivity|lia].
+Qed.
+
+Lemma suspect_f15 pa p s : suspectb (fst (proj pa (p, s))) = true -> f15_suspect (p, s).
+Proof.
+  unfold suspectb, f15_suspect. cbn [proj fst u_ps u_sl u_fcb u_sfcb]. intro H.
+  apply andb_prop in H. destruct H as [H1 H2]. apply sl_eqb_eq in H1. split; [exact H1|].
+  destruct (pe_state p); try discriminate; auto.
+  right; right; right. split; [reflexivity|]. apply negb_true_iff. exact H2.
+Qed.
+
+(* the common core of the recovery theorems *)
+Lemma recovery_core pa op p s : jinv pa p s -> op <> OpStop ->
+  exists k, (k <= c07_cycles (p_max_retry pa))%nat /\
+    ((forall m, (k <= m)%nat -> exists st' evs, joint_run pa op m (p, s) = Ok (st', evs) /\ in_dx st') \/
+     (f15_suspect (p, s) /\ exists st' evs, joint_run pa op k (p, s) = Ok (st', evs) /\ f15_core pa st')).
+Proof.
+  intros J Hop. pose proof (ji_M _ _ _ J) as JM.
+  set (M := Z.to_nat (p_max_retry pa)). set (fx := fix_of s).
+  destruct (abs_recovery fx M (fst (proj pa (p, s))) (snd (proj pa (p, s))) (jinv_fx _ _ _ J)) as (k & Hk & Hres);
+    [unfold M; lia|exact (jinv_range _ _ _ J)|].
+  rewrite <- surjective_pairing in Hres.
+  exists k. split; [exact Hk|].
+  destruct Hres as [G|[S C]].
+  - left. intros m Hm.
+    destruct (sim_run pa op Hop m p s J) as (p' & s' & evs & Hr & J' & _ & P).
+    exists (p', s'), evs. split; [exact Hr|]. apply (good_in_dx pa). rewrite P.
+    replace m with (k + (m - k))%nat by lia. rewrite aiter_add. apply good_stays. exact G.
+  - right. split; [apply (suspect_f15 pa); exact S|].
+    destruct (sim_run pa op Hop k p s J) as (p' & s' & evs & Hr & J' & _ & P).
+    exists (p', s'), evs. split; [exact Hr|]. apply (core_f15 pa p' s' J'). rewrite P. exact C.
+Qed.
+
+(* C07_recovery *)
+Theorem recovery pa op p s : jinv pa p s -> op <> OpStop -> ~ f15_class pa op (p, s) ->
+  exists k, (k <= c07_cycles (p_max_retry pa))%nat /\
+    forall m, (k <= m)%nat -> exists st' evs, joint_run pa op m (p, s) = Ok (st', evs) /\ in_dx st'.
+Proof.
+  intros J Hop Hn. destruct (recovery_core pa op p s J Hop) as (k & Hk & [G|[_ (st' & evs & Hr & Hc)]]).
+  - exists k. split; assumption.
+  - exfalso. apply Hn. exists k, st', evs. repeat split; assumption.
+Qed.
+
+Theorem recovery_explicit pa op p s : jinv pa p s -> op <> OpStop -> ~ f15_suspect (p, s) ->
+  exists k, (k <= c07_cycles (p_max_retry pa))%nat /\
+    forall m, (k <= m)%nat -> exists st' evs, joint_run pa op m (p, s) = Ok (st', evs) /\ in_dx st'.
+Proof.
+  intros J Hop Hn. destruct (recovery_core pa op p s J Hop) as (k & Hk & [G|[S _]]).
+  - exists k. split; assumption.
+  - exfalso. exact (Hn S).
+Qed.
+
+Lemma cycles_le_bound M : 0 <= M -> (c07_cycles M <= c07_bound M)%nat.
+Proof. intros _. unfold c07_cycles, c07_bound, c07_units. lia. Qed.
+
+(* C07_f15_refuted: the core is closed under the fault-free cycle, so a state of the class never recovers *)
+Theorem f15_refuted pa op p s : jinv pa p s -> op <> OpStop -> f15_core pa (p, s) ->
+  forall n, exists st' evs, joint_run pa op n (p, s) = Ok (st', evs) /\ f15_core pa st' /\ ~ in_dx st'.
+Proof.
+  intros J Hop Hc n.
+  destruct (sim_run pa op Hop n p s J) as (p' & s' & evs & Hr & J' & _ & P).
+  exists (p', s'), evs. split; [exact Hr|].
+  assert (C : f15_core pa (p', s')).
+  { apply (core_f15 pa p' s' J'). rewrite P. apply core_stays. apply (core_f15 pa p s J). exact Hc. }
+  split; [exact C|]. intros [D _]. destruct C as [V _]. cbn [fst] in D. rewrite V in D. discriminate.
+Qed.
+
+(* the two outcomes exclude each other: a state of the F15 class never reaches data exchange for good *)
+Theorem f15_class_never pa op p s : jinv pa p s -> op <> OpStop -> f15_class pa op (p, s) ->
+  forall k, exists m st' evs, (k <= m)%nat /\ joint_run pa op m (p, s) = Ok (st', evs) /\ ~ in_dx st'.
+Proof.
+  intros J Hop (n & st' & evs & Hn & Hr & Hc) k.
+  destruct (sim_run pa op Hop n p s J) as (p1 & s1 & e1 & Hr1 & J1 & _ & P1).
+  rewrite Hr in Hr1. inversion Hr1; subst st' evs.
+  destruct (sim_run pa op Hop (n + k) p s J) as (p2 & s2 & e2 & Hr2 & J2 & _ & P2).
+  exists (n + k)%nat, (p2, s2), e2. split; [lia|]. split; [exact Hr2|].
+  assert (C : f15_core pa (p2, s2)).
+  { apply (core_f15 pa p2 s2 J2). rewrite P2, aiter_add. apply core_stays. rewrite <- P1.
+    apply (core_f15 pa p1 s1 J1). exact Hc. }
+  intros [D _]. destruct C as [V _]. cbn [fst] in D. rewrite V in D. discriminate.
+Qed.
